@@ -25,6 +25,13 @@
    events plus one in the pump's hand.  "At most the configured number are held" is read as the
    queue bound (Bounded); the +1 is stated by Held and PullsStopWhenFull.
 
+   A close() whose close event the server refuses (its send() raises: AppCloseF / CloseSendFail) leaves the
+   connection as it was - accepted, pump alive, nothing dropped - and the application may go on
+   receiving, sending and closing.  The end of the whole application callable is part of the model
+   too: RespEnd (the responder returns, or lets WebSocketDisconnected propagate into the framework's
+   default handling) makes the framework close the connection itself if the application has not, and
+   AppReturn is the return of the ASGI callable: after it nothing of the framework may be running.
+
    No call is STARTED after close() has returned: what a receive/send on a socket the application
    closed itself must do is the business of the connection state machine (C17), not of the
    buffer.  What send()/close() do after the server's receive() has failed is out of scope too. *)
@@ -38,6 +45,10 @@ CONSTANTS MaxQs,        \* capacities explored (0 = unbuffered)
           NotifyPop,    \* TRUE: the pump resolves the receiver's waiter after appending.  FALSE: wrong design (lost wake-up)
           ReleaseOnEnd, \* TRUE: a pending receive returns when the pump task has ended.  FALSE: wrong design (it waits on)
           Faults,       \* TRUE: the server's receive() may raise while the pump awaits it
+          StopAfterSend,  \* TRUE: close() stops the pump only after the close event went out.  FALSE: wrong design (before)
+          CleanupOnDisc,  \* TRUE: the framework closes (stops the pump) at the end of the responder even if the client is
+                          \*       known to be gone.  FALSE: wrong design (nothing to close, so nothing is stopped)
+          MaxSendFail,  \* bound on close() calls whose close event the server refuses (its send() raises)
           MaxOps,       \* bound on application calls
           MaxCancel     \* bound on cancellations of a pending receive
 
@@ -55,6 +66,9 @@ VARIABLES mq,       \* capacity of this connection
           putW,     \* pump's waiter for space: "none" | "pending" | "set"
           rpc,      \* reader task: "idle" | "recvLoop" | "recvWait" | "recvRaw"
           wpc,      \* writer task: "idle" | "sending" | "closeSending" | "closing" | "closed"
+          cfail,    \* the server will refuse the close event of the running close()
+          nsf,      \* close() calls that failed that way so far
+          apc,      \* the application callable: "running" | "ending" (responder over, framework cleaning up) | "returned"
           wstate,   \* the connection state the calls look at: "accepted" | "closed"
           taken,    \* ghost: events handed to the application by receive, in order
           via,      \* ghost: how the application first learnt of the client's disconnect: "none" | "recv" | "send"
@@ -65,12 +79,15 @@ VARIABLES mq,       \* capacity of this connection
           pulls     \* ghost: server receive() calls issued so far
 
 vars == <<mq, all, srv, avail, pull, ppc, pcancel, inhand, queue, disc, popW, putW,
-          rpc, wpc, wstate, taken, via, rlast, wlast, rdone, wdone, ncancel, pulls>>
+          rpc, wpc, wstate, taken, via, rlast, wlast, rdone, wdone, ncancel, pulls,
+          cfail, nsf, apc>>
+xv == <<cfail, nsf, apc>>
 
 DISC == 0          \* the disconnect event; messages are 1..NMsg
 NIL == -1
 OKR == -2          \* result of a send/close that went through
 CANCELLED == -3    \* result of a receive that was cancelled
+SENDFAIL == -4     \* result of a close() whose close event the server refused
 Live  == {"loop", "awaitRecv", "checkSpace", "waitSpace"}
 Ended == {"done", "cancelled", "failed"}          \* the pump task has finished
 PumpEnded == ReleaseOnEnd /\ ppc \in Ended
@@ -79,7 +96,8 @@ Events(n, d) == [i \in 1..(n + (IF d THEN 1 ELSE 0)) |-> IF i <= n THEN i ELSE D
 Res(op, r) == [op |-> op, r |-> r]
 Hand == IF inhand = NIL THEN <<>> ELSE <<inhand>>
 Full == IF GeCmp THEN Len(queue) >= mq ELSE Len(queue) > mq
-Started == rdone + wdone + (IF rpc # "idle" THEN 1 ELSE 0) + (IF wpc \notin {"idle", "closed"} THEN 1 ELSE 0)
+Started == rdone + wdone + (IF rpc # "idle" THEN 1 ELSE 0)
+           + (IF wpc \notin {"idle", "closed"} /\ apc = "running" THEN 1 ELSE 0)    \* the framework's own close is no call
 
 InitWith(q, a) ==
         /\ mq = q /\ all = a
@@ -89,19 +107,20 @@ InitWith(q, a) ==
         /\ popW = "none" /\ putW = "none" /\ rpc = "idle" /\ wpc = "idle" /\ wstate = "accepted"
         /\ taken = <<>> /\ via = "none" /\ rlast = NIL /\ wlast = Res("none", NIL)
         /\ rdone = 0 /\ wdone = 0 /\ ncancel = 0 /\ pulls = 0
+        /\ cfail = FALSE /\ nsf = 0 /\ apc = "running"
 Init == \E q \in MaxQs, n \in 0..NMsg, d \in DiscChoices : InitWith(q, Events(n, d))
 
 (* ---------------- environment: the server ---------------- *)
 SrvArrive ==
     /\ srv # <<>>
     /\ avail' = Append(avail, Head(srv)) /\ srv' = Tail(srv)
-    /\ UNCHANGED <<mq, all, pull, ppc, pcancel, inhand, queue, disc, popW, putW, rpc, wpc, wstate, taken, via,
+    /\ UNCHANGED <<xv, mq, all, pull, ppc, pcancel, inhand, queue, disc, popW, putW, rpc, wpc, wstate, taken, via,
                    rlast, wlast, rdone, wdone, ncancel, pulls>>
 
 SrvFail ==         \* the receive() the pump awaits raises: the pump task ends without queueing anything
     /\ Faults /\ ppc = "awaitRecv" /\ pull = "pump" /\ ~pcancel /\ wpc \in {"idle", "sending"}
     /\ ppc' = "failed" /\ pull' = "none"
-    /\ UNCHANGED <<mq, all, srv, avail, pcancel, inhand, queue, disc, popW, putW, rpc, wpc, wstate, taken, via,
+    /\ UNCHANGED <<xv, mq, all, srv, avail, pcancel, inhand, queue, disc, popW, putW, rpc, wpc, wstate, taken, via,
                    rlast, wlast, rdone, wdone, ncancel, pulls>>
 
 (* ---------------- the pump task ---------------- *)
@@ -109,7 +128,7 @@ PumpLoop ==        \* while not client_disconnected: issue receive()
     /\ ppc = "loop" /\ ~pcancel
     /\ IF disc THEN ppc' = "done" /\ UNCHANGED <<pull, pulls>>
                ELSE ppc' = "awaitRecv" /\ pull' = "pump" /\ pulls' = pulls + 1
-    /\ UNCHANGED <<mq, all, srv, avail, pcancel, inhand, queue, disc, popW, putW, rpc, wpc, wstate, taken, via,
+    /\ UNCHANGED <<xv, mq, all, srv, avail, pcancel, inhand, queue, disc, popW, putW, rpc, wpc, wstate, taken, via,
                    rlast, wlast, rdone, wdone, ncancel>>
 
 PumpGot ==         \* receive() returned; the disconnect flag is raised at once, before waiting for space
@@ -117,7 +136,7 @@ PumpGot ==         \* receive() returned; the disconnect flag is raised at once,
     /\ avail' = Tail(avail) /\ pull' = "none"
     /\ disc' = (disc \/ Head(avail) = DISC)
     /\ inhand' = Head(avail) /\ ppc' = "checkSpace"
-    /\ UNCHANGED <<mq, all, srv, pcancel, queue, popW, putW, rpc, wpc, wstate, taken, via, rlast, wlast,
+    /\ UNCHANGED <<xv, mq, all, srv, pcancel, queue, popW, putW, rpc, wpc, wstate, taken, via, rlast, wlast,
                    rdone, wdone, ncancel, pulls>>
 
 PumpCheck ==       \* while full: wait for space; else append and notify the receiver
@@ -127,13 +146,13 @@ PumpCheck ==       \* while full: wait for space; else append and notify the rec
                ELSE /\ queue' = Append(queue, inhand) /\ inhand' = NIL
                     /\ popW' = (IF popW = "pending" /\ NotifyPop THEN "set" ELSE popW)
                     /\ ppc' = "loop" /\ UNCHANGED putW
-    /\ UNCHANGED <<mq, all, srv, avail, pull, pcancel, disc, rpc, wpc, wstate, taken, via, rlast, wlast,
+    /\ UNCHANGED <<xv, mq, all, srv, avail, pull, pcancel, disc, rpc, wpc, wstate, taken, via, rlast, wlast,
                    rdone, wdone, ncancel, pulls>>
 
 PumpWake ==        \* the wait for space was resolved by a receive
     /\ ppc = "waitSpace" /\ putW = "set" /\ ~pcancel
     /\ putW' = "none" /\ ppc' = "checkSpace"
-    /\ UNCHANGED <<mq, all, srv, avail, pull, pcancel, inhand, queue, disc, popW, rpc, wpc, wstate, taken, via,
+    /\ UNCHANGED <<xv, mq, all, srv, avail, pull, pcancel, inhand, queue, disc, popW, rpc, wpc, wstate, taken, via,
                    rlast, wlast, rdone, wdone, ncancel, pulls>>
 
 PumpCancelled ==   \* CancelledError is raised at the await the pump is suspended in; what it held is dropped
@@ -141,7 +160,7 @@ PumpCancelled ==   \* CancelledError is raised at the await the pump is suspende
     /\ ppc' = "cancelled" /\ pcancel' = FALSE
     /\ pull' = (IF pull = "pump" THEN "none" ELSE pull)
     /\ putW' = "none" /\ inhand' = NIL
-    /\ UNCHANGED <<mq, all, srv, avail, queue, disc, popW, rpc, wpc, wstate, taken, via, rlast, wlast,
+    /\ UNCHANGED <<xv, mq, all, srv, avail, queue, disc, popW, rpc, wpc, wstate, taken, via, rlast, wlast,
                    rdone, wdone, ncancel, pulls>>
 
 (* ---------------- the reader task ---------------- *)
@@ -149,7 +168,7 @@ ToldDisc(how) == /\ wstate' = "closed" /\ via' = (IF via = "none" THEN how ELSE 
 RDone(r) == rlast' = r /\ rdone' = rdone + 1
 
 AppRecv ==         \* receive_*(): a socket known to be closed raises at once
-    /\ rpc = "idle" /\ wpc # "closed" /\ Started < MaxOps
+    /\ rpc = "idle" /\ wpc # "closed" /\ Started < MaxOps /\ apc = "running"
     /\ \/ /\ wstate = "closed"
           /\ RDone(DISC)
           /\ UNCHANGED <<rpc, pull, pulls>>
@@ -159,7 +178,7 @@ AppRecv ==         \* receive_*(): a socket known to be closed raises at once
        \/ /\ wstate = "accepted" /\ mq > 0
           /\ rpc' = "recvLoop"
           /\ UNCHANGED <<rlast, rdone, pull, pulls>>
-    /\ UNCHANGED <<mq, all, srv, avail, ppc, pcancel, inhand, queue, disc, popW, putW, wpc, wstate, taken, via,
+    /\ UNCHANGED <<xv, mq, all, srv, avail, ppc, pcancel, inhand, queue, disc, popW, putW, wpc, wstate, taken, via,
                    wlast, wdone, ncancel>>
 
 Deliver(e) ==      \* hand event e to the application
@@ -183,7 +202,7 @@ RecvLoop ==        \* while not messages: create a waiter and wait; else pop and
           /\ queue' = Tail(queue) /\ Deliver(Head(queue))
           /\ putW' = (IF putW = "pending" THEN "set" ELSE putW)
           /\ rpc' = "idle" /\ UNCHANGED popW
-    /\ UNCHANGED <<mq, all, srv, avail, pull, ppc, pcancel, inhand, disc, wpc, wlast, wdone, ncancel, pulls>>
+    /\ UNCHANGED <<xv, mq, all, srv, avail, pull, ppc, pcancel, inhand, disc, wpc, wlast, wdone, ncancel, pulls>>
 
 RecvWake ==        \* the wait returned: the waiter was set, or the pump task has ended (cancelled by close()
                    \* from the other task, failed, or finished)
@@ -191,38 +210,38 @@ RecvWake ==        \* the wait returned: the waiter was set, or the pump task ha
     /\ popW' = "none"
     /\ IF popW = "set" THEN rpc' = "recvLoop" /\ UNCHANGED <<taken, rlast, rdone, wstate, via>>
                        ELSE rpc' = "idle" /\ SynthDisc
-    /\ UNCHANGED <<mq, all, srv, avail, pull, ppc, pcancel, inhand, queue, disc, putW, wpc, wlast, wdone,
+    /\ UNCHANGED <<xv, mq, all, srv, avail, pull, ppc, pcancel, inhand, queue, disc, putW, wpc, wlast, wdone,
                    ncancel, pulls>>
 
 RecvRawRet ==      \* unbuffered mode: the server's receive() returned to the application
     /\ rpc = "recvRaw" /\ pull = "app" /\ avail # <<>>
     /\ avail' = Tail(avail) /\ pull' = "none" /\ Deliver(Head(avail)) /\ rpc' = "idle"
-    /\ UNCHANGED <<mq, all, srv, ppc, pcancel, inhand, queue, disc, popW, putW, wpc, wlast, wdone, ncancel, pulls>>
+    /\ UNCHANGED <<xv, mq, all, srv, ppc, pcancel, inhand, queue, disc, popW, putW, wpc, wlast, wdone, ncancel, pulls>>
 
 CancelRecv ==      \* a pending receive is cancelled: its waiter is forgotten, nothing is consumed
     /\ rpc \in {"recvLoop", "recvWait", "recvRaw"} /\ ncancel < MaxCancel /\ ncancel' = ncancel + 1
     /\ popW' = "none" /\ pull' = (IF pull = "app" THEN "none" ELSE pull)
     /\ rpc' = "idle" /\ RDone(CANCELLED)
-    /\ UNCHANGED <<mq, all, srv, avail, ppc, pcancel, inhand, queue, disc, putW, wpc, wstate, taken, via,
+    /\ UNCHANGED <<xv, mq, all, srv, avail, ppc, pcancel, inhand, queue, disc, putW, wpc, wstate, taken, via,
                    wlast, wdone, pulls>>
 
 (* ---------------- the writer task ---------------- *)
 WDone(op, r) == wlast' = Res(op, r) /\ wdone' = wdone + 1
 
 AppSend ==         \* send_*(): raises iff the socket is known closed or the pump has seen the disconnect
-    /\ wpc = "idle" /\ ppc # "failed" /\ Started < MaxOps
+    /\ wpc = "idle" /\ ppc # "failed" /\ Started < MaxOps /\ apc = "running"
     /\ \/ /\ wstate = "closed"
           /\ WDone("send", DISC) /\ UNCHANGED <<wpc, wstate, via>>
        \/ /\ wstate = "accepted" /\ disc
           /\ WDone("send", DISC) /\ ToldDisc("send") /\ UNCHANGED wpc
        \/ /\ wstate = "accepted" /\ ~disc
           /\ wpc' = "sending" /\ UNCHANGED <<wlast, wdone, wstate, via>>
-    /\ UNCHANGED <<mq, all, srv, avail, pull, ppc, pcancel, inhand, queue, disc, popW, putW, rpc, taken,
+    /\ UNCHANGED <<xv, mq, all, srv, avail, pull, ppc, pcancel, inhand, queue, disc, popW, putW, rpc, taken,
                    rlast, rdone, ncancel, pulls>>
 
 SendRet ==         \* the server's send() returned
     /\ wpc = "sending" /\ wpc' = "idle" /\ WDone("send", OKR)
-    /\ UNCHANGED <<mq, all, srv, avail, pull, ppc, pcancel, inhand, queue, disc, popW, putW, rpc, wstate, taken, via,
+    /\ UNCHANGED <<xv, mq, all, srv, avail, pull, ppc, pcancel, inhand, queue, disc, popW, putW, rpc, wstate, taken, via,
                    rlast, rdone, ncancel, pulls>>
 
 (* close(), as repaired: a socket that is closed already (the application was told, or the pump
@@ -231,26 +250,60 @@ SendRet ==         \* the server's send() returned
    it before a send that may fail would drop the event in the pump's hand).  So between the wire
    close and the return of close() the pump may still run and a pull may still be outstanding;
    NothingLeftRunning speaks about the time after close() has returned.  A receive of the other
-   task that is pending meanwhile is released by the end of the pump task (RecvWake). *)
-AppClose ==
-    /\ wpc = "idle" /\ ppc # "failed" /\ Started < MaxOps
-    /\ IF wstate = "closed" \/ disc
-         THEN wpc' = "closing" /\ pcancel' = (ppc \in Live)
-         ELSE wpc' = "closeSending" /\ UNCHANGED pcancel
-    /\ UNCHANGED <<mq, all, srv, avail, pull, ppc, inhand, queue, disc, popW, putW, rpc, wstate, taken, via,
+   task that is pending meanwhile is released by the end of the pump task (RecvWake).
+   If the server refuses the close event (CloseSendFail: its send() raises, close() re-raises), the
+   connection is exactly what it was before the call: accepted, pump alive, nothing dropped; the
+   application may catch the error and go on receiving. *)
+CloseBegin(f) ==
+    IF wstate = "closed" \/ disc
+      THEN wpc' = "closing" /\ pcancel' = (ppc \in Live) /\ cfail' = FALSE
+      ELSE /\ wpc' = "closeSending" /\ cfail' = f
+           /\ pcancel' = (IF StopAfterSend THEN pcancel ELSE ppc \in Live)
+CloseCall(f) ==
+    /\ wpc = "idle" /\ ppc # "failed" /\ Started < MaxOps /\ apc = "running"
+    /\ CloseBegin(f)
+    /\ UNCHANGED <<nsf, apc, mq, all, srv, avail, pull, ppc, inhand, queue, disc, popW, putW, rpc, wstate, taken, via,
                    rlast, wlast, rdone, wdone, ncancel, pulls>>
+AppClose  == CloseCall(FALSE)
+AppCloseF == nsf < MaxSendFail /\ CloseCall(TRUE)      \* a close() whose close event (if one is sent) the server refuses
 
 CloseSent ==       \* the server's send() of the close event returned: state closed, now cancel the pump
-    /\ wpc = "closeSending"
+    /\ wpc = "closeSending" /\ ~cfail
     /\ wpc' = "closing" /\ wstate' = "closed" /\ pcancel' = (ppc \in Live)
-    /\ UNCHANGED <<mq, all, srv, avail, pull, ppc, inhand, queue, disc, popW, putW, rpc, taken, via,
+    /\ UNCHANGED <<xv, mq, all, srv, avail, pull, ppc, inhand, queue, disc, popW, putW, rpc, taken, via,
                    rlast, wlast, rdone, wdone, ncancel, pulls>>
+
+CloseSendFail ==   \* the server's send() of the close event raised: close() raises, nothing else has changed
+    /\ wpc = "closeSending" /\ cfail
+    /\ wpc' = "idle" /\ cfail' = FALSE /\ nsf' = nsf + 1
+    /\ (IF apc = "running" THEN WDone("close", SENDFAIL) ELSE UNCHANGED <<wlast, wdone>>)
+    /\ UNCHANGED <<apc, mq, all, srv, avail, pull, ppc, pcancel, inhand, queue, disc, popW, putW, rpc, wstate, taken, via,
+                   rlast, rdone, ncancel, pulls>>
 
 CloseFinish ==     \* ... wait until the pump is gone, then return
     /\ wpc = "closing" /\ (AwaitStop => ~pcancel)
-    /\ wpc' = "closed" /\ wstate' = "closed" /\ WDone("close", OKR)
-    /\ UNCHANGED <<mq, all, srv, avail, pull, ppc, pcancel, inhand, queue, disc, popW, putW, rpc, taken, via,
+    /\ wpc' = "closed" /\ wstate' = "closed"
+    /\ (IF apc = "running" THEN WDone("close", OKR) ELSE UNCHANGED <<wlast, wdone>>)    \* the framework's own close is no call
+    /\ UNCHANGED <<xv, mq, all, srv, avail, pull, ppc, pcancel, inhand, queue, disc, popW, putW, rpc, taken, via,
                    rlast, rdone, ncancel, pulls>>
+
+(* the end of the application callable.  RespEnd: the responder is over - it returned, or it let the
+   WebSocketDisconnected of its last call propagate into the framework's default handling.  Either way
+   the framework closes the connection itself unless the application has: a connection known to be gone
+   has no close event to send, but its pump must be stopped all the same (it may be parked waiting for
+   room, holding the disconnect event, when the queue was exactly full).  AppReturn: the callable returns. *)
+RespEnd ==
+    /\ apc = "running" /\ rpc = "idle" /\ wpc \in {"idle", "closed"} /\ ppc # "failed"
+    /\ IF wpc = "closed" THEN apc' = "ending" /\ UNCHANGED <<wpc, pcancel, cfail>>
+       ELSE IF CleanupOnDisc \/ ~(wstate = "closed" \/ disc) THEN apc' = "ending" /\ CloseBegin(FALSE)
+       ELSE apc' = "returned" /\ UNCHANGED <<wpc, pcancel, cfail>>
+    /\ UNCHANGED <<nsf, mq, all, srv, avail, pull, ppc, inhand, queue, disc, popW, putW, rpc, wstate, taken, via,
+                   rlast, wlast, rdone, wdone, ncancel, pulls>>
+
+AppReturn ==
+    /\ apc = "ending" /\ wpc = "closed" /\ apc' = "returned"
+    /\ UNCHANGED <<cfail, nsf, mq, all, srv, avail, pull, ppc, pcancel, inhand, queue, disc, popW, putW, rpc, wpc, wstate,
+                   taken, via, rlast, wlast, rdone, wdone, ncancel, pulls>>
 
 (* a step that completes a call of the reader / writer task (result in rlast' / wlast') *)
 RReturned == rdone' # rdone
@@ -258,9 +311,9 @@ WReturned == wdone' # wdone
 
 PumpStep == PumpLoop \/ PumpGot \/ PumpCheck \/ PumpWake \/ PumpCancelled
 ReadStep == RecvLoop \/ RecvWake \/ RecvRawRet
-WriteStep == SendRet \/ CloseSent \/ CloseFinish
+WriteStep == SendRet \/ CloseSent \/ CloseSendFail \/ CloseFinish \/ AppReturn
 Internal == PumpStep \/ ReadStep \/ WriteStep
-External == SrvArrive \/ SrvFail \/ AppRecv \/ AppSend \/ AppClose \/ CancelRecv
+External == SrvArrive \/ SrvFail \/ AppRecv \/ AppSend \/ AppClose \/ AppCloseF \/ CancelRecv \/ RespEnd
 Next == Internal \/ External
 
 Spec == Init /\ [][Next]_vars
@@ -275,6 +328,7 @@ ReadBusy == \/ rpc = "recvLoop"
             \/ rpc = "recvRaw" /\ pull = "app" /\ avail # <<>>
 WriteBusy == \/ wpc \in {"sending", "closeSending"}
              \/ wpc = "closing" /\ (AwaitStop => ~pcancel)
+             \/ apc = "ending" /\ wpc = "closed"
 Quiet == ~PumpBusy /\ ~ReadBusy /\ ~WriteBusy
 
 (* ---------------- properties ---------------- *)
@@ -288,6 +342,7 @@ TypeOK ==
     /\ wpc \in {"idle", "sending", "closeSending", "closing", "closed"}
     /\ wstate \in {"accepted", "closed"} /\ via \in {"none", "recv", "send"}
     /\ Started \in 0..MaxOps /\ ncancel \in 0..MaxCancel
+    /\ cfail \in BOOLEAN /\ nsf \in 0..MaxSendFail /\ apc \in {"running", "ending", "returned"}
 
 IsPrefix(s, t) == Len(s) <= Len(t) /\ SubSeq(t, 1, Len(s)) = s
 
@@ -318,6 +373,14 @@ WaitersConsistent == /\ popW # "none" => rpc = "recvWait"
    running and the pump has no receive() outstanding (in unbuffered mode a receive the application
    itself has pending is the application's) *)
 NothingLeftRunning == wpc = "closed" => ppc \in ({"off"} \cup Ended) /\ pull # "pump" /\ putW = "none" /\ ~pcancel
+(* ... and so does the end of the application callable, whichever way the responder ended *)
+PumpGone == ppc \in ({"off"} \cup Ended) /\ pull # "pump" /\ putW = "none" /\ ~pcancel
+AfterAppReturn == apc = "returned" => PumpGone /\ rpc = "idle"
+(* a connection the application still holds as accepted has its pump: a close() that failed on the wire has
+   not stopped it and has dropped nothing (Conserved covers the events) *)
+AcceptedHasPump ==
+    (mq > 0 /\ wstate = "accepted" /\ apc = "running" /\ wpc \in {"idle", "sending", "closeSending"})
+        => (ppc \in Live /\ ~pcancel) \/ (ppc = "done" /\ disc) \/ ppc = "failed"
 QuietIsRight == Quiet <=> ~ENABLED Internal
 
 (* liveness (FairSpec): a receive that can be satisfied is never left waiting; in particular a
@@ -331,5 +394,7 @@ HasDisc == Len(all) > 0 /\ all[Len(all)] = DISC
 SenderLearnsEventually ==
     [](((mq > 0 /\ HasDisc /\ Len(all) - 1 - Len(taken) <= mq)
             => <>(disc \/ wpc \in {"closeSending", "closing", "closed"} \/ ppc = "failed")))
-CloseCompletes == (wpc \in {"closeSending", "closing"}) ~> (wpc = "closed")
+CloseCompletes == (wpc \in {"closeSending", "closing"}) ~> (wpc = "closed" \/ (wpc = "idle" /\ nsf > 0))
+AppCallableReturns == (apc = "ending") ~> (apc = "returned")
+(* (a receive started after a close() that failed on the wire is covered by RecvProgress: the pump is still there) *)
 =========================================================================
